@@ -129,6 +129,10 @@ var noEffectPrefixes = []string{
 	"github.com/projectcalico/calico/libcalico-go/lib/logutils.", "(*github.com/projectcalico/calico/libcalico-go/lib/logutils.",
 	"time.Now", "time.Since", "(time.Time).", "(time.Duration).",
 	"strings.", "strconv.", "(*strings.Builder).",
+	// reflection: observers only ((reflect.Value).Set* are NOT in this list and havoc the heap)
+	"reflect.ValueOf", "reflect.TypeOf", "reflect.TypeFor", "(reflect.Value).Elem", "(reflect.Value).FieldByName", "(reflect.Value).Field",
+	"(reflect.Value).Interface", "(reflect.Value).Kind", "(reflect.Value).IsNil", "(reflect.Value).IsValid", "(reflect.Value).Type",
+	"(*reflect.rtype).", "(reflect.StructTag).",
 }
 
 // pureUnknown: result is a fresh value (non-nil for error constructors), state untouched.
